@@ -9,6 +9,7 @@ import (
 	"golang.org/x/tools/go/ssa"
 
 	"verif/engine/internal/core"
+	"verif/engine/internal/locks"
 )
 
 func init() { register("C14", checkC14) }
@@ -356,6 +357,80 @@ func checkC14(c *core.Ctx, r *core.Report) {
 		Consts: map[string]string{"segmeta.json": "segmeta.json", "metricmeta.json": "metricmeta.json"},
 	}
 	checkAtomic(c, r, tbl, []string{"segmeta.json", "metricmeta.json"}, map[string]string{})
+
+	// ---------------------------------------------------------------- (5) the rewrite of segmeta.json is one critical section
+	// removeSegmetas reads segmeta.json, drops the removed entries and renames the rewritten file into place.  Rotation
+	// appends entries to the same file under smrLock.  The read and the rewrite must therefore happen in ONE write-locked
+	// section: an entry appended between a read under a weaker (or no) lock and the rewrite is overwritten, and the
+	// freshly rotated segment disappears from the metadata.  Every access of the segmeta file in removeSegmetas — directly
+	// or through a callee that touches the file — lies where smrLock is must-held in write mode, and the function acquires
+	// the lock once.
+	{
+		a := lockAnalysis(c)
+		rm := c.Fn(pkgWriter, "removeSegmetas")
+		fname := c.Obj(pkgWriter, "localSegmetaFname")
+		touches := map[*ssa.Function]bool{}
+		fileCall := func(ci ssa.CallInstruction) bool {
+			f := core.CalleeFunc(ci)
+			if f == nil || f.Pkg() == nil || f.Pkg().Path() != "os" {
+				return false
+			}
+			for _, arg := range ci.Common().Args {
+				for _, o := range c.Origins(arg, 0) {
+					if o.Kind == "global" && o.Obj == fname {
+						return true
+					}
+				}
+			}
+			return false
+		}
+		for changed := true; changed; {
+			changed = false
+			for _, fn := range c.RepoFunctions() {
+				if touches[fn] || core.FnPkgPath(fn) != core.ModPath+"/"+pkgWriter {
+					continue
+				}
+				for _, ci := range core.CallsIn(fn) {
+					callee := ci.Common().StaticCallee()
+					if fileCall(ci) || (callee != nil && touches[callee]) {
+						touches[fn] = true
+						changed = true
+						break
+					}
+				}
+			}
+		}
+		ff := a.Facts[rm]
+		n, bad := 0, 0
+		locksTaken := 0
+		for _, ci := range core.CallsIn(rm) {
+			if site, ok := a.SiteOf(ci); ok && strings.HasSuffix(site.Class.Name, "smrLock") && (site.Op == locks.OpLock || site.Op == locks.OpRLock) {
+				locksTaken++
+			}
+			callee := ci.Common().StaticCallee()
+			if !(fileCall(ci) || (callee != nil && touches[callee])) {
+				continue
+			}
+			n++
+			held := false
+			if ff != nil {
+				for _, h := range ff.MustAt[ci] {
+					if strings.HasSuffix(h.Class.Name, "smrLock") && !h.Read {
+						held = true
+					}
+				}
+			}
+			if !held {
+				bad++
+				r.Violation("HELD", fmt.Sprintf("%s:segmeta-access#%d-inside-the-write-locked-section", shortFn(rm), n), c.Pos(ci.Pos()), "segmeta.json is read or rewritten here without smrLock held in write mode: the entries a rotation appends between this access and the rename of the rewritten file are overwritten, so a freshly rotated segment vanishes from the metadata file")
+			}
+		}
+		if bad == 0 {
+			r.OK("HELD", shortFn(rm)+":segmeta-accesses-inside-the-write-locked-section", c.Pos(rm.Pos()), fmt.Sprintf("%d accesses of the segmeta file, all with smrLock must-held in write mode", n))
+		}
+		r.Check(locksTaken == 1, "HELD", shortFn(rm)+":one-acquisition-of-smrLock", c.Pos(rm.Pos()), "the lock is acquired once (read and rewrite share the critical section)", fmt.Sprintf("smrLock is acquired %d times in removeSegmetas: the read and the rewrite of segmeta.json are not one critical section", locksTaken))
+		r.Floor("HELD", "accesses of the segmeta file in removeSegmetas", n, 3)
+	}
 }
 
 // retentionGuard: block b is dominated by the accepting edge of a comparison
